@@ -118,7 +118,11 @@ func (r *run) decide(s Step) error {
 					r.mu.Unlock()
 				}
 			case !silent[prim]:
-				st := Step{Op: "x", X: fmt.Sprintf("decide-req-%d-%d", h, view), From: prim, Type: "PrepareRequest", View: view, Txs: s.T}
+				names := s.T
+				if view < len(s.Views) && s.Views[view] != nil {
+					names = s.Views[view]
+				}
+				st := Step{Op: "x", X: fmt.Sprintf("decide-req-%d-%d", h, view), From: prim, Type: "PrepareRequest", View: view, Txs: names}
 				e := r.craft(n, st)
 				deliver(e, st.X)
 				r.mu.Lock()
